@@ -354,7 +354,7 @@ func Grammar(tier string, v2 bool) []GrammarItem {
 					}
 					c := gCollection(u, "coll", kt, ent, s.ms, re)
 					if len(s.ms) == 0 {
-						c.Methods = append(c.Methods, &Method{Kind: "FINDER", Name: "only", Return: ent})
+						c.Methods = append(c.Methods, &Method{Kind: "FINDER", Name: "only", Return: ent}, &Method{Kind: "FINDER", Name: "onlyPaged", Return: ent, Paging: true})
 					}
 					u.Prune()
 					id := fmt.Sprintf("methods-collection-%s-%s", kn, s.name)
